@@ -19,6 +19,16 @@ def rows(path):
     return out
 
 
+NOTES = {
+    "tok-min-length-gt": "C02 is not violated by this mutant (tokens of exactly min_length are lost, none is too short or too long): C04 is the property it breaks",
+    "split-silence-ge-to-gt": "equivalent at the API: the tokenizer constructor still raises ValueError for silence == max",
+    "energy-negative-index-not-normalised": "equivalent: numpy's own negative indexing selects the same channel",
+    "limiter-lt-zero": "equivalent with the existing sources: every source returns None for read(0)",
+    "check-other-skips-sw": "equivalent: whenever width*channels agree but widths differ, the channel counts differ and the next test raises",
+    "stop-joins-before-send": "repository tests hang with this mutant (caught by the suite's timeout), kept for sensitivity only",
+}
+
+
 def mutation_table():
     rs = rows(os.path.join(HERE, "results", "mutants-quick.jsonl"))
     lines = ["| mutant | repo tests still pass | check: verdict (s) |", "|---|---|---|"]
@@ -30,7 +40,8 @@ def mutation_table():
             total += 1
             caught += v == "caught"
         tp = {True: "yes", False: "NO (not a valid mutant for the brief, kept for sensitivity only)", None: "not run"}[r.get("tests_pass")]
-        lines.append(f"| {r['name']} | {tp} | {'; '.join(cells)} |")
+        note = NOTES.get(r["name"])
+        lines.append(f"| {r['name']} | {tp} | {'; '.join(cells)}{' - ' + note if note else ''} |")
     lines.append("")
     lines.append(f"{caught} of {total} (mutant, targeted check) pairs caught in the quick tier, {len(rs)} mutants.")
     return "\n".join(lines)
